@@ -4,6 +4,8 @@ from __future__ import annotations
 import json
 
 import common
+from common import clist, cstr
+import grammar2coq as g2c
 import runmodel as rm
 
 # where a keyword literal can sit; {k} is the quoted literal
@@ -53,6 +55,22 @@ def run(chk: common.Check, tier: str):
             chk.violation(f"a parser generated a second time from the same grammar object differs: keyword tables "
                           f"{k1[0]}/{k1[1]} -> {k2[0]}/{k2[1]}, outcomes {k1[2]} -> {k2[2]}",
                           {"grammar": t, "inputs": INPUTS, "how": "PythonParserGenerator(g, out).generate() twice on one Grammar object"}, True)
+    # instance of C11_keyword_tables_are_exactly_the_quoted_words: the tables the REAL generator emitted are the traversal's
+    kcases, kdescs = [], []
+    for t, rj in pairs:
+        try:
+            kcases.append(f"({g2c.Translator().grammar(g2c.read_grammar(t))}, {clist(rj['keywords'], cstr)}, {clist(rj['soft_keywords'], cstr)})")
+            kdescs.append(t)
+        except (SyntaxError, g2c.Untranslatable, ValueError):
+            continue
+    bad = common.run_cases(chk, "kwtab", g2c.HEADER + "From Pegen Require Import Analysis.Literals.\n",
+                           "grammar * list string * list string", kcases,
+                           "fun c => let '(g, kw, soft) := c in strs_eqb (hard_keywords g) kw && strs_eqb (soft_keywords g) soft",
+                           shard=100)
+    if bad is not None:
+        chk.oblige(f"instance condition of C11_keyword_tables_are_exactly_the_quoted_words on {len(kcases)} grammars: KEYWORDS / "
+                   "SOFT_KEYWORDS of the real generated parser = the quoted identifier-like literals found by the plain traversal",
+                   not bad, json.dumps([kdescs[i] for i in bad[:3]]))
     # keywords with letters outside ASCII (the classification regex uses \\w), and keywords spelled like names of the
     # token module that are not token kinds the tokenizer emits
     probes = [("start: NAME NEWLINE | SOFT_KEYWORD NUMBER NEWLINE | NUMBER hard soft NEWLINE\nhard: 'caf\u00e9' | NUMBER\n"
